@@ -136,6 +136,10 @@ func (c *client) receiveID(ctx context.Context) (errc chan error) {
 			utils.ReportError(ctx, errc, errors.Errorf("MarshalBinary: %w", err))
 			return
 		}
+		if len(dhBytes) < 44 {
+			utils.ReportError(ctx, errc, errors.New("exchangeID: degenerate remote public key"))
+			return
+		}
 		c.dhKey = dhBytes[0:32]
 		c.dhNonce = dhBytes[32:44]
 
@@ -526,6 +530,10 @@ func decodeBytes(bytes []byte, veifyfn verifyFunc) (pa *Package, ptr ptypes.Dyna
 	//bytes = []byte{}
 	if err = proto.Unmarshal(bytes, pa); err != nil {
 		err = errors.Errorf("Unmarshal: %w", err)
+		return
+	}
+	if pa.GetAnything() == nil {
+		err = errors.New("Unmarshal: package without payload")
 		return
 	}
 	if veifyfn != nil {
